@@ -427,6 +427,13 @@ func (g *Gen) GenDocT(kind string, t reflect.Type) map[string]interface{} {
 	if doc == nil {
 		doc = map[string]interface{}{"name": "f1", "kind": kind}
 	}
+	if t != nil && g.Adv && g.chance(7, 10) {
+		// systematic: one leaf of the type driven to an extreme inside an otherwise untouched document
+		if ps := LeafPaths(t); len(ps) > 0 {
+			g.SetPath(doc, t, ps[g.R.Intn(len(ps))])
+		}
+		return doc
+	}
 	if t != nil {
 		n := []int{0, 1, 1, 2, 3}[g.R.Intn(5)]
 		if g.Adv {
